@@ -40,6 +40,17 @@ import Tickit.Gen.InputXlate
          outside `A` are offered the event in the reference order of the tree as it was when the dispatch began
          ........................................................... `delivery_unaffected_key`, `delivery_unaffected_mouse`,
                                                                      `delivery_unaffected_persists` (whole events, histories)
+    the window's own handlers, when earlier ones are one-shot or unbind themselves and mutate the tree / hand the focus
+         over from inside the walk (FOCUS events are then emitted on the list being walked): every handler still
+         bound is invoked, in binding order, up to the first claim ... `own_handlers_under_mutation`,
+                                                                     `own_handlers_all_when_declined`,
+                                                                     `gone_handler_never_invoked`, `oneshot_at_most_once`
+    mouse input that arrives as X10 bytes (libtermkey's decoding modelled: `x10Key`; `got_key` = the C20 model): the
+         events of a report, the held-button record, the button of a button-less release, and with it DRAG_DROP /
+         DRAG_STOP consistent with the press that began the drag .... `x10_report_events`, `x10_wheel_keeps_held`,
+                                                                     `x10_gesture_holds_pressed_button`,
+                                                                     `x10_release_names_held_button`,
+                                                                     `x10_drag_release_consistent`
 -/
 namespace Tickit.Props.C14
 open Tickit Tickit.WinTree Tickit.WinInput
@@ -1288,32 +1299,6 @@ theorem x10_drag_release_consistent (cfg : WinInput.Cfg) (xcfg : InputXlate.Cfg)
   | false =>
     simp only [Bool.false_eq_true, if_false] at h3; subst h3
     exact ⟨n1, n2, n3, [LogItem.unhandled], by simp [St.say, hl], p1, p2, p3, by simp⟩
-
-/-- Reports that may follow the press of button `p + 1` without changing what is held: drags of that button, and
-    turns of the wheel. -/
-def KeepsHeld (p code : Nat) : Prop :=
-  (code &&& 0xc3 = p ∧ code &&& 0x20 ≠ 0) ∨ ((code &&& 0xc3 = 64 ∨ code &&& 0xc3 = 65) ∧ code &&& 0x20 = 0)
-
-open InputXlate in
-theorem keepsHeld_spec (p : Nat) (hp : p < 3) (code line col : Nat) (hk : KeepsHeld p code) :
-    (Spec.keyEvents [p + 1] (x10Key code line col)).1 = [p + 1] := by
-  rcases hk with ⟨hc, hm⟩ | ⟨hw, hm⟩
-  · have he : x10Event code = TERMKEY_MOUSE_DRAG := by
-      unfold x10Event; simp [hc, hp, hm]
-    have hbt : x10Button code = (p : Int) + 1 := by unfold x10Button; simp [hc, hp]
-    unfold x10Key
-    rw [he, hbt]
-    have : ((p : Int) + 1).toNat = p + 1 := by omega
-    simp [Spec.keyEvents, TERMKEY_MOUSE_DRAG, TERMKEY_MOUSE_PRESS, this, Spec.insert]
-  · have he : x10Event code = TERMKEY_MOUSE_PRESS := by
-      unfold x10Event
-      rcases hw with hw | hw <;> simp [hw, hm]
-    have hbt : x10Button code ≥ 4 := by
-      unfold x10Button
-      rcases hw with hw | hw <;> simp [hw]
-    unfold x10Key
-    rw [he]
-    simp [Spec.keyEvents, hbt]
 
 open InputXlate in
 /-- **What is held during a drag is the button of the press that began it**: from a fresh terminal, after the press of
